@@ -30,11 +30,28 @@ type c9v struct {
 	n      int64
 	fields map[string]*c9v
 	elems  []*c9v
-	alloc  *ssa.Alloc // addr of a local
-	base   *c9v       // addr of a field of base
+	alloc  *ssa.Alloc    // addr of a local
+	base   *c9v          // addr of a field of base
+	fn     *ssa.Function // k == "closure": the function and the values bound to its free variables
+	free   []*c9v
 }
 
 func c9unk(why string) *c9v { return &c9v{k: "unk", s: why} }
+
+// c9zero: a field of a struct literal that was never set holds the zero value of its type.
+func c9zero(t types.Type, f string) *c9v {
+	if b, ok := t.Underlying().(*types.Basic); ok {
+		switch {
+		case b.Info()&types.IsBoolean != 0:
+			return c9bool(false, "")
+		case b.Info()&types.IsString != 0:
+			return &c9v{k: "str", s: ""}
+		case b.Info()&types.IsInteger != 0:
+			return &c9v{k: "int", n: 0}
+		}
+	}
+	return c9unk("unset field " + f)
+}
 func c9bool(b bool, sym string) *c9v {
 	return &c9v{k: "bool", b: b, sym: sym}
 }
@@ -48,6 +65,9 @@ type c9interp struct {
 	steps   int
 	depth   int
 	cells   map[*ssa.Alloc]*c9v
+	// registration mode (R3)
+	register bool
+	locked   bool
 	// facts for R2
 	exactKeys   int
 	nameSuffix  map[string]bool
@@ -97,7 +117,7 @@ func (it *c9interp) eval(fr *c9frame, v ssa.Value) *c9v {
 	case *ssa.Global:
 		return &c9v{k: "global", s: x.Name()}
 	case *ssa.Function:
-		return &c9v{k: "func", s: x.Name()}
+		return &c9v{k: "closure", s: x.Name(), fn: x}
 	}
 	return c9unk("value not computed on this path: " + short(v.String(), 40))
 }
@@ -123,7 +143,7 @@ func (it *c9interp) load(a *c9v, t types.Type) *c9v {
 				if f, ok := cell.fields[a.s]; ok {
 					return f
 				}
-				return c9unk("unset field " + a.s)
+				return c9zero(t, a.s)
 			}
 			if cell.k == "entry" {
 				return it.fieldOf(cell, a.s, t)
@@ -156,6 +176,14 @@ func (it *c9interp) fieldOf(base *c9v, f string, t types.Type) *c9v {
 				return &c9v{k: "mapref", s: "NAME"}
 			}
 		}
+		// the handler tables may live in a struct of their own inside the mux
+		st := t
+		if p, ok := st.Underlying().(*types.Pointer); ok {
+			st = p.Elem()
+		}
+		if _, ok := st.Underlying().(*types.Struct); ok && !flow.TypeIs(st, "sync", "RWMutex") && !flow.TypeIs(st, "sync", "Mutex") {
+			return &c9v{k: "mux", s: f}
+		}
 		return c9unk("mux field " + f)
 	case "dcmd":
 		if f == "Short" {
@@ -171,7 +199,7 @@ func (it *c9interp) fieldOf(base *c9v, f string, t types.Type) *c9v {
 		if x, ok := base.fields[f]; ok {
 			return x
 		}
-		return c9unk("unset field " + f)
+		return c9zero(t, f)
 	}
 	return c9unk("field " + f + " of " + base.k)
 }
@@ -181,6 +209,8 @@ func (it *c9interp) keyClass(k *c9v) (string, string) {
 	switch k.k {
 	case "key":
 		return k.s, ""
+	case "regname":
+		return "REGNAME", ""
 	case "namekey":
 		return "NAME", k.s
 	case "struct":
@@ -271,6 +301,16 @@ func (it *c9interp) binop(x *ssa.BinOp, a, b *c9v) *c9v {
 		if a.k == "bool" && b.k == "bool" {
 			return res(a.b == b.b, "")
 		}
+		// registration: the name being registered compared with the catch-all name
+		if a.k == "str" && b.k == "regname" {
+			a, b = b, a
+		}
+		if a.k == "regname" && b.k == "str" {
+			if b.s == "ALL" {
+				return res(a.b, "")
+			}
+			return res(false, "")
+		}
 		if a.k == "int" && b.k == "int" {
 			return res(a.n == b.n, "")
 		}
@@ -282,7 +322,9 @@ func (it *c9interp) binop(x *ssa.BinOp, a, b *c9v) *c9v {
 }
 
 // call interprets fn with the given arguments and returns its result.
-func (it *c9interp) call(fn *ssa.Function, args []*c9v) *c9v {
+func (it *c9interp) call(fn *ssa.Function, args []*c9v) *c9v { return it.callClosure(fn, args, nil) }
+
+func (it *c9interp) callClosure(fn *ssa.Function, args []*c9v, free []*c9v) *c9v {
 	if it.depth > 8 {
 		return it.fail("call depth exceeded in the dispatch code")
 	}
@@ -292,6 +334,11 @@ func (it *c9interp) call(fn *ssa.Function, args []*c9v) *c9v {
 	for i, p := range fn.Params {
 		if i < len(args) {
 			fr.env[p] = args[i]
+		}
+	}
+	for i, fv := range fn.FreeVars {
+		if i < len(free) {
+			fr.env[fv] = free[i]
 		}
 	}
 	blk := fn.Blocks[0]
@@ -318,6 +365,12 @@ func (it *c9interp) call(fn *ssa.Function, args []*c9v) *c9v {
 			case *ssa.FieldAddr:
 				base := it.eval(fr, x.X)
 				fname := x.X.Type().Underlying().(*types.Pointer).Elem().Underlying().(*types.Struct).Field(x.Field).Name()
+				if base.k == "addr" && base.base != nil {
+					// address of a field of a field: &mux.tbl.indexes — continue from the inner object
+					if o := it.load(base, x.X.Type().Underlying().(*types.Pointer).Elem()); o.k == "mux" {
+						base = o
+					}
+				}
 				if base.k == "addr" && base.alloc != nil && base.s == "" {
 					fr.env[x] = &c9v{k: "addr", alloc: base.alloc, s: fname}
 				} else {
@@ -366,6 +419,12 @@ func (it *c9interp) call(fn *ssa.Function, args []*c9v) *c9v {
 				}
 			case *ssa.BinOp:
 				fr.env[x] = it.binop(x, it.eval(fr, x.X), it.eval(fr, x.Y))
+			case *ssa.MakeClosure:
+				cl := &c9v{k: "closure", s: x.Fn.Name(), fn: x.Fn.(*ssa.Function)}
+				for _, b := range x.Bindings {
+					cl.free = append(cl.free, it.eval(fr, b))
+				}
+				fr.env[x] = cl
 			case *ssa.ChangeType:
 				fr.env[x] = it.eval(fr, x.X)
 			case *ssa.Convert:
@@ -374,7 +433,7 @@ func (it *c9interp) call(fn *ssa.Function, args []*c9v) *c9v {
 				fr.env[x] = it.eval(fr, x.X)
 			case *ssa.MakeInterface:
 				v := it.eval(fr, x.X)
-				if v.k == "unk" || v.k == "addr" || v.k == "struct" || v.k == "str" || v.k == "int" {
+				if v.k == "unk" || v.k == "addr" || v.k == "struct" || v.k == "str" || v.k == "int" || v.k == "closure" {
 					v = &c9v{k: "nonnil"}
 				}
 				fr.env[x] = v
@@ -387,6 +446,8 @@ func (it *c9interp) call(fn *ssa.Function, args []*c9v) *c9v {
 				} else {
 					cl, sfx := it.keyClass(key)
 					switch {
+					case it.register && (cl == "REGNAME" || cl == "REGIDX" || cl == "ALL"):
+						res = &c9v{k: "regentry"}
 					case cl == "?":
 						res = it.fail("a handler lookup uses a key that is neither the exact index, the short name plus R/A, nor the catch-all (" + key.k + ")")
 					case (cl == "NAME") != (m.s == "NAME"):
@@ -412,6 +473,9 @@ func (it *c9interp) call(fn *ssa.Function, args []*c9v) *c9v {
 					if res.k != "entry" {
 						ok = c9unk("lookup")
 					}
+					if res.k == "regentry" {
+						ok = &c9v{k: "reghit"}
+					}
 					fr.env[x] = &c9v{k: "tuple", elems: []*c9v{res, ok}}
 				} else {
 					fr.env[x] = res
@@ -432,6 +496,27 @@ func (it *c9interp) call(fn *ssa.Function, args []*c9v) *c9v {
 				}
 			case *ssa.Call:
 				fr.env[x] = it.doCall(fr, x)
+			case *ssa.MapUpdate:
+				m, key, val := it.eval(fr, x.Map), it.eval(fr, x.Key), it.eval(fr, x.Value)
+				if m.k != "mapref" {
+					continue
+				}
+				cl, _ := it.keyClass(key)
+				carries := false
+				var walk func(v *c9v, d int)
+				walk = func(v *c9v, d int) {
+					if v == nil || d > 3 {
+						return
+					}
+					if v.k == "handler" && v.s == "NEW" {
+						carries = true
+					}
+					for _, f := range v.fields {
+						walk(f, d+1)
+					}
+				}
+				walk(val, 0)
+				it.effects = append(it.effects, fmt.Sprintf("update map=%s key=%s handler=%v locked=%v", m.s, cl, carries, it.locked))
 			case *ssa.Defer, *ssa.RunDefers, *ssa.DebugRef:
 			case *ssa.Go:
 				return it.fail("go statement in the dispatch code")
@@ -452,6 +537,10 @@ func (it *c9interp) call(fn *ssa.Function, args []*c9v) *c9v {
 				return t
 			case *ssa.If:
 				cv := it.eval(fr, x.Cond)
+				if cv.k == "reghit" {
+					it.wrong = "the registration is conditional on the key's presence: registering a key again does not replace the earlier handler"
+					return it.fail(it.wrong)
+				}
 				if cv.k != "bool" {
 					return it.fail("a dispatch branch depends on something other than the classified lookups, the dictionary result and the request bit (" + cv.k + ": " + cv.s + ") at " + it.c.pos(x))
 				}
@@ -507,10 +596,23 @@ func (it *c9interp) doCall(fr *c9frame, x *ssa.Call) *c9v {
 	}
 	g := flow.StaticCallee(x)
 	if g == nil {
+		// a call of a function value built in the dispatch code itself (closure, method value, function name)
+		if fv := it.eval(fr, com.Value); fv.k == "closure" && fv.fn != nil && fv.fn.Blocks != nil && it.c.P.IsLibrary(fv.fn) {
+			return it.callClosure(fv.fn, args, fv.free)
+		}
 		if isHandlerInvocation(x) {
 			it.effects = append(it.effects, "invoke ?dynamic")
 		}
 		return c9unk("dynamic call")
+	}
+	if o := flow.CalleeObj(x); o != nil && o.Pkg() != nil && o.Pkg().Path() == "sync" {
+		switch o.Name() {
+		case "Lock":
+			it.locked = true
+		case "Unlock":
+			it.locked = false
+		}
+		return &c9v{k: "void"}
 	}
 	switch {
 	case flow.IsCallTo(x, pkgDiam, "ServeMux", "Error"):
@@ -541,5 +643,23 @@ func (c *Ctx) c09Interpret(sd *ssa.Function, as map[string]bool) *c9interp {
 	it := &c9interp{c: c, assign: as, cells: map[*ssa.Alloc]*c9v{}, nameSuffix: map[string]bool{}}
 	args := []*c9v{{k: "mux"}, {k: "conn"}, {k: "msg"}}
 	it.call(sd, args)
+	return it
+}
+
+// c09Register runs a registration method: Handle(name, h) with the name being the catch-all name or not, or
+// HandleIdx(idx, h). The handler argument is the abstract handler "NEW"; map updates are recorded as effects
+// together with whether the exclusive lock was held.
+func (c *Ctx) c09Register(f *ssa.Function, isALL bool) *c9interp {
+	it := &c9interp{c: c, assign: map[string]bool{}, cells: map[*ssa.Alloc]*c9v{}, nameSuffix: map[string]bool{}, register: true}
+	args := []*c9v{{k: "mux"}}
+	if len(f.Params) == 3 {
+		if b, ok := f.Params[1].Type().Underlying().(*types.Basic); ok && b.Info()&types.IsString != 0 {
+			args = append(args, &c9v{k: "regname", b: isALL})
+		} else {
+			args = append(args, &c9v{k: "key", s: "REGIDX"})
+		}
+		args = append(args, &c9v{k: "handler", s: "NEW", b: true})
+	}
+	it.call(f, args)
 	return it
 }
